@@ -33,6 +33,22 @@ func allStacks() string {
 	return string(buf[:n])
 }
 
+// parkedOnLibraryLock returns, by goroutine id, the stacks of the goroutines that are
+// parked in a sync.Mutex / RWMutex lock operation with a library frame on the stack.
+func parkedOnLibraryLock() map[string]string {
+	out := map[string]string{}
+	for _, g := range strings.Split(allStacks(), "\n\n") {
+		if (strings.Contains(g, "sync.(*Mutex).Lock") || strings.Contains(g, "sync.(*RWMutex).Lock") || strings.Contains(g, "sync.(*RWMutex).RLock")) &&
+			strings.Contains(g, "go-data-transfer/v2") && (strings.Contains(g, "[sync.Mutex.Lock") || strings.Contains(g, "[sync.RWMutex") || strings.Contains(g, "[semacquire")) {
+			f := strings.Fields(g)
+			if len(f) > 1 && f[0] == "goroutine" {
+				out[f[1]] = g
+			}
+		}
+	}
+	return out
+}
+
 // joinOrDump waits for wg; on watchdog expiry it returns the goroutine dump.
 func joinOrDump(wg *sync.WaitGroup, d time.Duration) (bool, string) {
 	done := make(chan struct{})
@@ -498,13 +514,27 @@ func TestC20_Race(t *testing.T) {
 		}) {
 			mfail(t, log, "C20/stop/subscription-lock-held", "Subscribe / unsubscribe block after Stop:\n%s", allStacks())
 		}
-		// no goroutine may be parked on a library lock
+		// no goroutine may stay parked on a library lock (a goroutine that is merely
+		// waiting its turn at the sampled instant - e.g. a channel-monitor timer that fired
+		// just before Stop - is gone at the next sample; a dead-locked one is still there)
 		time.Sleep(2 * time.Millisecond)
-		for _, g := range strings.Split(allStacks(), "\n\n") {
-			if (strings.Contains(g, "sync.(*Mutex).Lock") || strings.Contains(g, "sync.(*RWMutex).Lock") || strings.Contains(g, "sync.(*RWMutex).RLock")) &&
-				strings.Contains(g, "go-data-transfer/v2") && (strings.Contains(g, "[sync.Mutex.Lock") || strings.Contains(g, "[sync.RWMutex") || strings.Contains(g, "[semacquire")) {
-				mfail(t, log, "C20/goroutine-blocked-on-lock", "after Stop a goroutine is blocked on a library lock:\n%s", g)
+		parked := parkedOnLibraryLock()
+		for _, wait := range []time.Duration{300 * time.Millisecond, time.Second, 2 * time.Second} {
+			if len(parked) == 0 {
+				break
 			}
+			time.Sleep(wait)
+			again := parkedOnLibraryLock()
+			for id := range parked {
+				if g, ok := again[id]; ok {
+					parked[id] = g
+				} else {
+					delete(parked, id)
+				}
+			}
+		}
+		for _, g := range parked {
+			mfail(t, log, "C20/goroutine-blocked-on-lock", "after Stop a goroutine stays blocked on a library lock (still there after 3.3 s):\n%s", g)
 		}
 		sp.Eval()
 		if atomic.LoadInt64(&reentrant) > 0 && atomic.LoadInt64(&cbDuringStop) > 0 {
